@@ -23,6 +23,7 @@ import Golib.Value.CmpLaws
 import Golib.Value.CmpExact
 import Golib.Value.Canon
 import Golib.Value.EqExact
+import Golib.Value.CmpWrap
 
 namespace C20
 open Value
@@ -277,6 +278,23 @@ theorem finding_hypotheses :
     ¬ Aligned (.map [([120], .dec 1), ([121], .dec 2)]) (.map [([121], .dec 3), ([120], .dec 0)]) := by
   unfold NoNaN Aligned; decide +kernel
 
+/-! ### nesting depth -/
+
+/-- the laws hold at every nesting depth, because nesting is transparent: the same chain of
+    one-entry containers (one-element list, one-entry map / int map under the same key — `ws`, of any
+    length and any mixture) around both operands changes neither `Equals` nor `CompareTo`.  In
+    particular a value nested n deep is Equal to an identical one exactly when the leaves are, two
+    chains that differ in a deep leaf compare as the leaves do (so the signs reverse when the leaves'
+    do), for every n.  The harness evaluates exactly this clause on the implementation for depths
+    1 … 1000 (`depthStage`). -/
+theorem wrap_eq (ws : List Wrap) (a b : Value) : eqV (wrapAll ws a) (wrapAll ws b) = eqV a b := wrapAll_eq ws a b
+theorem wrap_cmp (ws : List Wrap) (a b : Value) : cmpV (wrapAll ws a) (wrapAll ws b) = cmpV a b := wrapAll_cmp ws a b
+
+/-- a deep value is Equal to itself / compares 0 with itself exactly when its leaf does -/
+theorem deep_refl (ws : List Wrap) (v : Value) (hw : WFV v) (hn : NoNaN v) :
+    eqV (wrapAll ws v) (wrapAll ws v) = true ∧ cmpV (wrapAll ws v) (wrapAll ws v) = 0 := by
+  rw [wrap_eq, wrap_cmp]; exact ⟨eqV_refl v hw hn, (cmp_zero_iff_eq v v).mpr (eqV_refl v hw hn)⟩
+
 /-! ### non-vacuity: non-trivial values meet the hypotheses; the repaired behaviours -/
 
 example : WFV (.map [([97], .list [.f32 one32, .af [two32]]), ([98], .dsum 0 3 0 0)]) ∧
@@ -303,5 +321,11 @@ example : cmpV .null (.imap []) = -81 := by decide +kernel                      
 example : cmpV (.lsum 5 1 0 0) (.lsum 5 2 0 0) = 1 ∧ cmpV (.lsum 5 2 0 0) (.lsum 5 1 0 0) = -1 := by decide +kernel  -- D07
 example : eqV (.map [([97], .null)]) (.map [([98], .null)]) = false := by decide +kernel                 -- D04
 example : eqV (.map [([97], .dec 1), ([98], .dec 2)]) (.map [([98], .dec 2), ([97], .dec 1)]) = true := by decide +kernel
+example : isFlat (wrapAll (List.replicate 40 .l) (.dec 7)) = false ∧
+    cmpV (wrapAll (List.replicate 40 .l) (.dec 7)) (wrapAll (List.replicate 40 .l) (.dec 8)) = 1 ∧
+    cmpV (wrapAll (List.replicate 40 .l) (.dec 8)) (wrapAll (List.replicate 40 .l) (.dec 7)) = -1 := by
+  refine ⟨by decide +kernel, ?_, ?_⟩ <;> rw [wrap_cmp] <;> decide +kernel
+example : eqV (wrapAll [.l, .m [107], .im 1, .l] (.dec 7)) (wrapAll [.l, .m [107], .im 1, .l] (.dec 7)) = true :=
+  (deep_refl _ (.dec 7) (by decide +kernel) (by unfold NoNaN; decide +kernel)).1
 
 end C20
